@@ -305,7 +305,7 @@ func FindSubsets(
 			return err
 		}
 		{
-			if block.RawData()[1] != byte(iplddecoders.KindSubset) {
+			if len(block.RawData()) < 2 || block.RawData()[1] != byte(iplddecoders.KindSubset) {
 				continue
 			}
 			decoded, err := iplddecoders.DecodeSubset(block.RawData())
@@ -356,7 +356,7 @@ func FindBlocks(
 			return err
 		}
 		{
-			if block.RawData()[1] != byte(iplddecoders.KindBlock) {
+			if len(block.RawData()) < 2 || block.RawData()[1] != byte(iplddecoders.KindBlock) {
 				continue
 			}
 			decoded, err := iplddecoders.DecodeBlock(block.RawData())
@@ -405,7 +405,7 @@ func FindEntries(
 			return err
 		}
 		{
-			if block.RawData()[1] != byte(iplddecoders.KindEntry) {
+			if len(block.RawData()) < 2 || block.RawData()[1] != byte(iplddecoders.KindEntry) {
 				continue
 			}
 			decoded, err := iplddecoders.DecodeEntry(block.RawData())
@@ -451,7 +451,7 @@ func FindTransactions(
 			return err
 		}
 		{
-			if block.RawData()[1] != byte(iplddecoders.KindTransaction) {
+			if len(block.RawData()) < 2 || block.RawData()[1] != byte(iplddecoders.KindTransaction) {
 				continue
 			}
 			decoded, err := iplddecoders.DecodeTransaction(block.RawData())
@@ -497,7 +497,7 @@ func FindRewards(
 			return err
 		}
 		{
-			if block.RawData()[1] != byte(iplddecoders.KindRewards) {
+			if len(block.RawData()) < 2 || block.RawData()[1] != byte(iplddecoders.KindRewards) {
 				continue
 			}
 			decoded, err := iplddecoders.DecodeRewards(block.RawData())
@@ -543,7 +543,7 @@ func FindDataFrames(
 			return err
 		}
 		{
-			if block.RawData()[1] != byte(iplddecoders.KindDataFrame) {
+			if len(block.RawData()) < 2 || block.RawData()[1] != byte(iplddecoders.KindDataFrame) {
 				continue
 			}
 			decoded, err := iplddecoders.DecodeDataFrame(block.RawData())
